@@ -695,6 +695,79 @@ def analyze_window_classes(facts, fty):
     return ctx
 
 
+def analyze_truncflag(facts, fty):
+    """C06/C11: the flag "digits were dropped" is honoured by the middle stage.
+    Eisel-Lemire (`lemire::lemire::<F>`), entered with many_digits = true and a non-zero significand: every path to a return either
+    declines (biased exponent provably negative), or has called compute_float twice, the second time on significand + 1 (interval shifted
+    by exactly one at both ends), and has compared the two results (`PartialEq::ne/eq` of ExtendedFloat), or went through compute_error.
+    Bellerophon (`bellerophon::bellerophon::<F>`), same entry condition: at every call of error_is_accurate the error estimate is at
+    least one whole unit of the significand in the estimate's own unit (`error_scale()`, read from the code): the dropped digits are
+    worth up to one unit of w, which normalisation can only enlarge."""
+    ctx = Ctx(facts, "valid")
+    ctx.record = True
+    compact = "compact" in facts.config
+    dpath = "minimal_lexical::bellerophon::bellerophon" if compact else "minimal_lexical::lemire::lemire"
+    insts = find_insts(facts, dpath, fty)
+    dummy = {"dpath": dpath, "path": dpath.rsplit("::", 1)[-1], "targs": [], "krate": "minimal_lexical"}
+    if not insts:
+        ctx.oblige("post:truncation flag: stage present", False, dummy, {}, "no instance of %s::<%s>" % (dpath, fty))
+        ctx.exits, ctx.wall = 0, 0.0
+        return ctx
+    inst = insts[0]
+
+    def pre(st, fr):
+        a1 = st.env.get((fr, 1))
+        d = G.ptr.get(a1) if isinstance(a1, int) else None
+        if d and d[0] == "loc":
+            st.env[d[1] + (("f", 1),)] = new_int(1, (1 << 63))
+            st.env[d[1] + (("f", 0),)] = new_int(-(1 << 31), (1 << 31) - 1)
+            st.env[d[1] + (("f", 2),)] = const_int(1)
+    G.reset()
+    if compact:
+        scale = None
+        for m in find_insts(facts, "minimal_lexical::bellerophon::error_scale"):
+            c1 = analyze_fn(facts, m, "valid", ctx=ctx)
+            for st, rv in c1.exit_states:
+                if isinstance(rv, int) and rv in G.base and st.get_iv(rv)[0] == st.get_iv(rv)[1]:
+                    scale = st.get_iv(rv)[0]
+        G.reset()
+        ctx.arg_log = {"bellerophon::error_is_accurate": []}
+        c2 = analyze_fn(facts, inst, "valid", ctx=ctx, pre=pre)
+        calls = ctx.arg_log["bellerophon::error_is_accurate"]
+        ctx.arg_log = None
+        los = [a[0][0] for _f, a in calls if a and a[0] is not None]
+        good = scale is not None and scale >= 1 and bool(calls) and len(los) == len(calls) and min(los) >= scale
+        ctx.oblige("post:truncation flag widens the error estimate by at least one unit of the significand", good, inst, inst.get("span"),
+                   "error_scale() = %s; lower bounds of the estimate at the %d call(s) of error_is_accurate with many_digits set: %s" % (scale, len(calls), sorted(set(los))[:6]))
+    else:
+        ctx.mark_calls = {"lemire::compute_float": "#compute_float", "lemire::compute_error": "compute_error",
+                          "::ne": "cmp", "::eq": "cmp"}
+        c2 = analyze_fn(facts, inst, "valid", ctx=ctx, pre=pre, keep_paths=True)
+        ctx.mark_calls = None
+        bad = []
+        for st, rv in c2.exit_states:
+            declined = False
+            if isinstance(rv, Fields):
+                e = rv.d.get((("f", 1),))
+                if isinstance(e, int) and e in G.base and st.get_iv(e)[1] < 0:
+                    declined = True
+            if declined or ("visited", "compute_error") in st.ghost:
+                continue
+            cnt = st.ghost.get(("visited", "#compute_float"))
+            n = st.get_iv(cnt)[0] if cnt is not None else 0
+            w0, w1 = st.ghost.get(("arg", "#compute_float", 0, 1)), st.ghost.get(("arg", "#compute_float", 1, 1))
+            shifted = False
+            if w0 is not None and w1 is not None:
+                A, B = st.get_iv(w0), st.get_iv(w1)
+                shifted = B == (A[0] + 1, A[1] + 1)
+            if not (n >= 2 and shifted and ("visited", "cmp") in st.ghost):
+                bad.append("an exit that may be definite after %d call(s) of compute_float%s%s" % (n, "" if shifted else ", second significand not first + 1", "" if ("visited", "cmp") in st.ghost else ", results not compared"))
+        ctx.oblige("post:truncated significand accepted only if w and w+1 were both evaluated and compared", not bad and bool(c2.exit_states), inst, inst.get("span"),
+                   "; ".join(sorted(set(bad))[:3]) or "%d exits" % len(c2.exit_states))
+    ctx.exits, ctx.wall = 0, 0.0
+    return ctx
+
+
 def analyze_hi64_classes(facts):
     """C12, top-64-bit extraction from one and two limbs: the first limb r0 is partitioned by its number of leading zeros (64 classes covering
     every non-zero value), the second limb r1 into {0}, [1, 2^(64-ls) - 1] (its bits that fall off the result are non-zero) and the rest.
@@ -957,6 +1030,11 @@ if __name__ == "__main__":
         f = F.build(sys.argv[2], sys.argv[3])
         for fty in ("f32", "f64"):
             report(analyze_round_classes(f, fty), only_failed="--all" not in sys.argv)
+        sys.exit(0)
+    if sys.argv[1] == "truncflag":
+        f = F.build(sys.argv[2], sys.argv[3])
+        for fty in ("f32", "f64"):
+            report(analyze_truncflag(f, fty), only_failed="--all" not in sys.argv)
         sys.exit(0)
     if sys.argv[1] == "window":
         f = F.build(sys.argv[2], sys.argv[3])
